@@ -209,7 +209,8 @@ impl Scenario for HybridScenario {
         knobs["active"] = json!(r.pick(&[8usize, 16, 32]));
         let est = 60_000 + n as u64 * 8000 * shards as u64;
         let mut p = json!({"shards": shards, "inst": inst, "reports": reports.iter().map(|x| json!([x.0, x.1, x.2])).collect::<Vec<_>>(),
-            "assign": assign, "malicious": malicious, "padding": padding, "share_seed": r.next_u64() >> 12, "knobs": knobs, "dense": dense});
+            "assign": assign, "malicious": malicious, "padding": padding, "share_seed": r.next_u64() >> 12, "knobs": knobs, "dense": dense,
+            "node_tasks": r.chance(1, 3)});
         if self.tampered {
             p["corrupt"] = json!(r.below(3));
             p["site_seed"] = json!(r.next_u64() >> 12);
@@ -259,6 +260,7 @@ macro_rules! make_exec {
             let knobs = &p["knobs"];
             let (active, read_size, world_seed) = (pu(knobs, "active"), pu(knobs, "read_size"), pu64(knobs, "world_seed"));
             let share_seed = pu64(p, "share_seed");
+            let node_tasks = p.get("node_tasks").and_then(Value::as_bool) == Some(true);
             let log: NodeLog<NodeRes> = node_log();
             let log2 = StdArc::clone(&log);
             let (tamper, interceptor) = faults::tamper_many(sites);
@@ -267,6 +269,7 @@ macro_rules! make_exec {
                 let log = StdArc::clone(&log2);
                 let (assign, reports, interceptor) = (assign.clone(), reports.clone(), interceptor.clone());
                 async move {
+                    let assign2 = assign.clone();
                     ASSIGN.with(|a| *a.borrow_mut() = assign);
                     let world = TestWorld::<WithShards<$n, PlanDistribute>>::with_shards(&world_config(world_seed, active, read_size, Some(interceptor)));
                     let mut rng = StdRng::seed_from_u64(share_seed);
@@ -280,6 +283,44 @@ macro_rules! make_exec {
                         }
                     }
                     let padding = if relaxed { PaddingParameters::relaxed() } else { PaddingParameters::no_padding() };
+                    if node_tasks {
+                        // every (helper, shard) node is a task of its own, so that the scheduler also decides which node moves next
+                        // (the stock runner polls all nodes from one task in a fixed order); the world is leaked for 'static borrows
+                        let world: &'static TestWorld<WithShards<$n, PlanDistribute>> = Box::leak(Box::new(world));
+                        let mut per: Vec<Vec<Vec<IndistinguishableHybridReport<$bk, BA3>>>> = (0..3).map(|_| (0..$n).map(|_| Vec::new()).collect()).collect();
+                        let [h0, h1, h2] = per_helper;
+                        for (h, rows) in [h0, h1, h2].into_iter().enumerate() {
+                            for (i, x) in rows.into_iter().enumerate() {
+                                per[h][assign2.get(i).copied().unwrap_or(i) % $n].push(x);
+                            }
+                        }
+                        let mut handles = Vec::new();
+                        macro_rules! spawn_nodes {
+                            ($ctxs:expr) => {
+                                for (h, v) in $ctxs.into_iter().enumerate() {
+                                    for (sh, ctx) in v.into_iter().enumerate() {
+                                        let rows = std::mem::take(&mut per[h][sh]);
+                                        let log = StdArc::clone(&log);
+                                        handles.push(shuttle::future::spawn(async move {
+                                            let key = (role_idx(ctx.role()), usize::from(ctx.shard_id()));
+                                            let r = hybrid_protocol::<_, $bk, BA3, $hv, 3, $b>(ctx, rows, DpMechanism::NoDp, padding).await;
+                                            let r: NodeRes = r.map(|v| v.iter().map(|s| (s.left().as_u128(), s.right().as_u128())).collect()).map_err(|e| e.to_string());
+                                            log.lock().unwrap().insert(key, r);
+                                        }));
+                                    }
+                                }
+                            };
+                        }
+                        if malicious {
+                            spawn_nodes!(world.malicious_contexts());
+                        } else {
+                            spawn_nodes!(world.contexts());
+                        }
+                        for h in handles {
+                            h.await.unwrap();
+                        }
+                        return;
+                    }
                     let log = &log;
                     let conv = |r: Result<Vec<Replicated<$hv>>, Error>| -> NodeRes {
                         r.map(|v| v.iter().map(|s| (s.left().as_u128(), s.right().as_u128())).collect()).map_err(|e| e.to_string())
@@ -344,7 +385,7 @@ fn judge(p: &Value, shards: usize, buckets: usize, reports: &[Report], assign: &
         }
         m.values().filter(|c| **c == 2).count()
     };
-    let shape = format!("hybrid s{shards} {} n{n} pairs{pairs} m{} pad{} e{empties} t{}", ps(p, "inst"), u8::from(pb(p, "malicious")), ps(p, "padding"), u8::from(tampered));
+    let shape = format!("hybrid s{shards} {} n{n} pairs{pairs} m{} pad{} e{empties} t{} k{}", ps(p, "inst"), u8::from(pb(p, "malicious")), ps(p, "padding"), u8::from(tampered), u8::from(p.get("node_tasks").and_then(Value::as_bool) == Some(true)));
     let honest = run(Vec::new());
     // ---------- fault-free oracle ----------
     {
